@@ -214,20 +214,24 @@ func main() {
 	rd := findFunc(pf, "path", "doReloadConf")
 	installs := false
 	if rd != nil {
-		ast.Inspect(rd.Body, func(n ast.Node) bool {
-			if as, ok := n.(*ast.AssignStmt); ok && len(as.Lhs) == 1 && len(as.Rhs) == 1 {
-				if p, f, ok := sel(as.Lhs[0]); ok && p == "pa" && f == "conf" {
-					if id, ok := as.Rhs[0].(*ast.Ident); ok && len(rd.Type.Params.List) >= 1 &&
-						len(rd.Type.Params.List[0].Names) >= 1 && id.Name == rd.Type.Params.List[0].Names[0].Name {
-						installs = true
-					}
+		// a top-level statement `pa.conf = <the new configuration>` (a parameter, a local, or a field named conf of the request)
+		for _, st := range rd.Body.List {
+			as, ok := st.(*ast.AssignStmt)
+			if !ok || len(as.Lhs) != 1 || len(as.Rhs) != 1 {
+				continue
+			}
+			if p, f, ok := sel(as.Lhs[0]); ok && p == "pa" && f == "conf" {
+				switch rhs := as.Rhs[0].(type) {
+				case *ast.Ident:
+					installs = rhs.Name != "nil"
+				case *ast.SelectorExpr:
+					installs = rhs.Sel.Name == "conf"
 				}
 			}
-			return true
-		})
+		}
 	}
 	if !installs {
-		failf("path.doReloadConf no longer installs the new configuration with `pa.conf = newConf`")
+		failf("path.doReloadConf no longer installs the new configuration as a whole (`pa.conf = newConf`)")
 	}
 
 	q := func(xs []string) string {
